@@ -79,6 +79,20 @@ GithubError == /\ last # <<>> /\ last[1] = "compare-all" /\ last[2]
                /\ \A f \in FileSet : Present(f) => (CanGen(f) /\ Found(f))
                /\ \E f \in FileSet : Present(f) /\ stored[f] # G(src[f])
 
+\* What format --check prints: the files that are "not properly formatted", in walk order.  A file
+\* that cannot be formatted is reported as an error instead (and ends the run if it ends the process).
+RECURSIVE FmtReportFold(_)
+FmtReportFold(i) == IF i > Len(Files) THEN <<>>
+                    ELSE LET f == Files[i] IN
+                         IF ~Present(f) THEN FmtReportFold(i + 1)
+                         ELSE IF ~Formats(src[f]) THEN (IF FmtAborts(src[f]) THEN <<>> ELSE FmtReportFold(i + 1))
+                         ELSE IF ~canon[f] \/ Lints(src[f]) THEN <<f>> \o FmtReportFold(i + 1)
+                         ELSE FmtReportFold(i + 1)
+FmtReports == IF last = <<>> THEN <<>>
+              ELSE IF last[1] = "format-check-all" THEN FmtReportFold(1)
+              ELSE IF last[1] = "format-check" /\ CanFmt(last[2]) /\ (~canon[last[2]] \/ Lints(src[last[2]])) THEN << last[2] >>
+              ELSE <<>>
+
 \* --all: text mode reports per rule but fails only when something cannot be processed;
 \* github mode fails when any rule is out of date
 CompareAll(github) ==
